@@ -26,6 +26,7 @@ PROPS = {
     "C05": [(pending, ["C05_"])],
     "C13": [(chan.C13, ["C13_"])],
     "C12": [(tcp_stream.C12, ["C12_"])],
+    "C17": [(chan.C17, ["C17_", "C13_NoCrash"])],
     "C18": [(srvlife, ["C18_"])],
     "C20": [(mux, ["C20_"])],
     "C16": [(tcp_stream.C16, ["C16_"])],
